@@ -705,6 +705,9 @@ var typeFacts []*Term
 var typeFactSeen = map[int]bool{}
 
 func addTypeFact(t *Term) {
+	if hasBound(t) {
+		return
+	}
 	if typeFactSeen[t.id] {
 		return
 	}
